@@ -29,6 +29,16 @@ fuzz_target!(|data: &[u8]| {
         }
     };
     // the oracle of C16 is "no panic": every call below must return a value or an error
+    {
+        use cteepbd::types::MetaVec;
+        for k in ["CTE_RED1", "CTE_RED2", "CTE_AREAREF", "CTE_KEXP"] {
+            let _ = comps.get_meta_rennren(k);
+            let _ = comps.get_meta_f32(k);
+        }
+        for m in &comps.meta {
+            let _ = m.value.parse::<cteepbd::types::RenNrenCo2>();
+        }
+    }
     let _ = comps.clone().normalize();
     let printed = comps.to_string();
     let _ = printed.parse::<Components>();
